@@ -2638,12 +2638,16 @@ func (t *Terminal) resizeIfNeeded() bool {
 	// Check if the header borders are used and header has changed
 	allHeaderLines := t.visibleHeaderLines()
 	primaryHeaderLines := allHeaderLines
+	headerLines := t.headerLines
+	if !t.headerVisible {
+		headerLines = 0
+	}
 	if t.headerLinesShape.Visible() {
-		primaryHeaderLines -= t.headerLines
+		primaryHeaderLines -= headerLines
 	}
 	if (t.headerBorderShape.Visible() || t.headerLinesShape.Visible()) &&
 		(t.headerWindow == nil && primaryHeaderLines > 0 || t.headerWindow != nil && primaryHeaderLines != t.headerWindow.Height()) ||
-		t.headerLinesShape.Visible() && (t.headerLinesWindow == nil && t.headerLines > 0 || t.headerLinesWindow != nil && t.headerLines != t.headerLinesWindow.Height()) {
+		t.headerLinesShape.Visible() && (t.headerLinesWindow == nil && headerLines > 0 || t.headerLinesWindow != nil && headerLines != t.headerLinesWindow.Height()) {
 		t.printAll()
 		return true
 	}
